@@ -337,6 +337,24 @@ func checkWrapperGetSet(p *Prog, r *Report) {
 		}
 	})
 	r.decide(okSet, "C17.id", "(*Wrapper).Set:id", p.pos(set.Pos()), "Set(\"id\", v) calls SetID and returns", "Wrapper.Set does not return after setting the ID (it goes on to look for a field tagged \"id\")")
+	// and nothing is silently dropped: every return of Set has gone through
+	// SetID or through the field setter
+	eachInstr(set, func(ins ssa.Instruction) {
+		ret, ok := ins.(*ssa.Return)
+		if !ok {
+			return
+		}
+		stored := mustPassInstr(set, ret, func(i2 ssa.Instruction) bool {
+			c, ok := i2.(*ssa.Call)
+			if !ok || c.Common().StaticCallee() == nil {
+				return false
+			}
+			nm := c.Common().StaticCallee().Name()
+			return nm == "SetID" || nm == "setField"
+		})
+		r.decide(stored, "C17.id", "(*Wrapper).Set:always-sets:"+p.describe(ret), p.pos(ret.Pos()), "every path through Set calls SetID or setField",
+			"Wrapper.Set can return without having called SetID or the field setter: some value (an empty ID, say) is silently ignored, so Get does not read back what was Set while a soft resource stores it")
+	})
 	// setField: reflect.Set argument is reflect.ValueOf(v) or the zero of the field type
 	n := 0
 	// the value given to setField, also as the parameter of an assignment
